@@ -26,7 +26,11 @@ KIND = "mqtt_client::OpKind"
 
 def rule_status(R):
     f = R.f
-    st = roles.method(f, SESSION, "status")
+    try:
+        st = roles.method(f, SESSION, "status")
+    except AnchorLost:
+        # no three-valued `status` any more: the three public predicates are decided directly
+        return rule_status_predicates(R)
     R.touch(st)
     hr = roles.method(f, OUTBOUND, "has_retained")
     hp = roles.method(f, OUTBOUND, "has_pending_release")
@@ -134,6 +138,180 @@ def rule_status(R):
         ok = is_call(t, "PartialEq::eq", "eq") and any(is_call(x, "status") for x in walk(t)) and any(
             x[0] == "agg" and x[2] == STATUS and x[3] == verdict for x in walk(t))
         R.ob("status/%s" % name, ok, "Session::%s is status(op) == %s" % (name, verdict), where=b.span)
+
+
+def _status_hook(f, hr, hp):
+    def hook(body, bb, si):
+        s = peel(si["subject"])
+        e = si["edges"]
+        if True in e and False in e:
+            def _gen_side(x):
+                x = peel(x)
+                r_, n_ = chain(x)
+                if n_[-1:] == ["generation"]:
+                    return "op" if r_ == ("param", "op") else "self"
+                if is_call(x, "generation"):
+                    return "self"
+                return None
+            neg = False
+            if s[0] == "un" and s[1] == "Not":
+                neg, s = True, peel(s[2])
+            if s[0] == "bin" and s[1] in ("Ne", "Eq") and {_gen_side(s[2]), _gen_side(s[3])} == {"op", "self"}:
+                ne = (s[1] == "Ne") != neg
+                return ("gen",), {"mismatch": e[True if ne else False], "match": e[False if ne else True]}
+            if is_call(s, "PartialEq::eq", "eq") and len(s[3]) == 2:
+                sides = [peel(s[3][0]), peel(s[3][1])]
+                ks_ = [x for x in sides if x[0] == "agg" and x[2] == KIND]
+                fs_ = [x for x in sides if chain(x) == (("param", "op"), ["kind"])]
+                if len(ks_) == 1 and len(fs_) == 1:
+                    return ("op", "kind"), {ks_[0][3]: e[True], ("not", frozenset([ks_[0][3]])): e[False]}
+            for alt in phi_alts(s):
+                a = peel(alt)
+                if a[0] == "call" and a[2] == hr.name:
+                    return ("retained",), {"yes": e[not neg], "no": e[neg]}
+                if a[0] == "call" and a[2] == hp.name:
+                    return ("release",), {"yes": e[not neg], "no": e[neg]}
+        return None
+    return hook
+
+
+def rule_status_predicates(R):
+    """`is_pending`, `is_complete`, `is_invalidated` written out without a three-valued status: each is tabulated over
+    (generation matches?, kind, identifier retained?, identifier waiting for PUBCOMP?) and compared with what the status
+    table demands -- invalidated exactly on a generation mismatch (decided before any lookup), pending exactly while the
+    identifier is retained (or, for QoS 2, in the release list), complete otherwise"""
+    f = R.f
+    hr = roles.method(f, OUTBOUND, "has_retained")
+    hp = roles.method(f, OUTBOUND, "has_pending_release")
+    kinds = [v["name"] for v in f.adts[KIND]["variants"]]
+    hook = _status_hook(f, hr, hp)
+    bad = []
+    covered = 0
+    pending_rows = []
+    for name in ("is_pending", "is_complete", "is_invalidated"):
+        b = roles.method(f, SESSION, name)
+        R.touch(b)
+        seen = set()
+        for lf in paths.explore(b, 0, lambda t: "op" if t == ("param", "op") else False, lambda b_, bb: False, switch_hook=hook, max_paths=4000):
+            if lf["kind"] == "limit":
+                bad.append(("path limit in %s" % name, ()))
+            if lf["kind"] != "return":
+                continue
+            v = paths.value_on_path(b, lf["path"], 0)
+            val = bool(v[2]) if v is not None and v[0] == "const" and v[2] in (0, 1) else None
+            if val is None and v is not None and v[0] == "un" and v[1] == "Not" and peel(v[2])[0] == "const" and peel(v[2])[2] in (0, 1):
+                val = not bool(peel(v[2])[2])
+            k = None
+            for key, kv in lf["cons"].items():
+                if isinstance(key, tuple) and key and key[0] == "op" and key[-1] == "kind":
+                    k = kv
+            ks = [k] if isinstance(k, str) else [x for x in kinds if k is None or x not in k[1]]
+            gen, ret, rel = lf["cons"].get(("gen",)), lf["cons"].get(("retained",)), lf["cons"].get(("release",))
+            if val is None and v is not None and gen is None:
+                # the verdict *is* the generation comparison (`!self.is_current(op)`)
+                x_ = peel(v)
+                neg_ = False
+                if x_[0] == "un" and x_[1] == "Not":
+                    neg_, x_ = True, peel(x_[2])
+
+                def _gs(y):
+                    y = peel(y)
+                    r_, n_ = chain(y)
+                    if n_[-1:] == ["generation"]:
+                        return "op" if r_ == ("param", "op") else "self"
+                    return "self" if is_call(y, "generation") else None
+                if x_[0] == "bin" and x_[1] in ("Eq", "Ne") and {_gs(x_[2]), _gs(x_[3])} == {"op", "self"}:
+                    says_mismatch = (x_[1] == "Ne") != neg_
+                    if name == "is_invalidated" and says_mismatch and ret is None and rel is None:
+                        seen |= set(ks) | {"mismatch"}
+                    else:
+                        bad.append(("%s returns the generation comparison itself" % name, ()))
+                    continue
+            if val is None and v is not None:
+                # the verdict *is* the result of a lookup (`=> retained`, `!self.is_in_flight(op)`): both outcomes
+                x_ = peel(v)
+                neg_ = False
+                if x_[0] == "un" and x_[1] == "Not":
+                    neg_, x_ = True, peel(x_[2])
+                which = None
+                for alt in phi_alts(x_):
+                    a_ = peel(alt)
+                    if a_[0] == "call" and a_[2] == hr.name and ret is None:
+                        which = "ret"
+                    elif a_[0] == "call" and a_[2] == hp.name and rel is None:
+                        which = "rel"
+                if which is not None:
+                    pending_rows.append((name, gen, ks, ret, rel, which, neg_))
+                    continue
+            if gen == "mismatch":
+                seen.add("mismatch")
+                if val != (name == "is_invalidated"):
+                    bad.append(("%s on a generation mismatch is %s" % (name, val), (gen, ks, ret, rel)))
+                continue
+            if gen != "match":
+                bad.append(("%s reaches a verdict without comparing the generation" % name, (gen, ks, ret, rel, val)))
+                continue
+            if name == "is_invalidated":
+                seen |= set(ks)
+                if val is not False:
+                    bad.append(("is_invalidated although the generation matches", (gen, ks, ret, rel, val)))
+                continue
+            for kk in ks:
+                q2 = kk == "PublishExactlyOnce"
+                determined = ret is not None and (ret == "yes" or not q2 or rel is not None)
+                if not determined:
+                    bad.append(("%s for %s decided without consulting the in-flight tables" % (name, kk), (gen, kk, ret, rel, val)))
+                    continue
+                pending = (ret == "yes") or (q2 and rel == "yes")
+                want = pending if name == "is_pending" else (not pending)
+                if val != want:
+                    bad.append(("%s for %s with retained=%s release=%s is %s" % (name, kk, ret, rel, val), ()))
+                if not q2 and rel is not None and ret == "no":
+                    bad.append(("%s for %s consults the release list" % (name, kk), ()))
+                seen.add(kk)
+        for (nm_, gen, ks, ret, rel, which, neg_) in [r for r in pending_rows if r[0] == name]:
+            for outcome in ("yes", "no"):
+                ret2 = outcome if which == "ret" else ret
+                rel2 = outcome if which == "rel" else rel
+                val = (outcome == "yes") != neg_
+                if gen != "match":
+                    bad.append(("%s hands on a lookup result without comparing the generation" % name, (gen, ks)))
+                    continue
+                for kk in ks:
+                    q2 = kk == "PublishExactlyOnce"
+                    determined = ret2 is not None and (ret2 == "yes" or not q2 or rel2 is not None)
+                    if not determined:
+                        bad.append(("%s for %s decided without consulting the in-flight tables" % (name, kk), (gen, kk, ret2, rel2, val)))
+                        continue
+                    pending = (ret2 == "yes") or (q2 and rel2 == "yes")
+                    want = pending if name == "is_pending" else (not pending)
+                    if name == "is_invalidated":
+                        want = False
+                    if val != want:
+                        bad.append(("%s for %s with retained=%s release=%s is %s" % (name, kk, ret2, rel2, val), ()))
+                    if not q2 and which == "rel":
+                        bad.append(("%s for %s consults the release list" % (name, kk), ()))
+                    seen.add(kk)
+        if seen >= set(kinds) | {"mismatch"}:
+            covered += 1
+    R.ob("status/table", not bad and covered == 3,
+         "is_pending / is_complete / is_invalidated: invalidated exactly on a generation mismatch (checked first); otherwise "
+         "pending exactly while the identifier is retained (or, for QoS 2, waiting for PUBCOMP), else complete%s"
+         % ("" if not bad else "; " + bad[0][0] + " " + str(bad[0][1])), where=roles.method(f, SESSION, "is_pending").span)
+    for b, q in ((hr, "retained"), (hp, "pending_release")):
+        ok = roles.membership_loop(b, q, roles.eq_test_taken("packet_id", ("param", "packet_id")))
+        R.ob("status/lookup/%s" % b.fn_name, ok,
+             "%s is true exactly when some entry of `%s` carries the identifier" % (b.fn_name, q), where=b.span)
+    n = 0
+    for name in ("is_pending", "is_complete"):
+        b = roles.method(f, SESSION, name)
+        for c in b.calls.values():
+            if c.bb in b.reachable and any(t in (hr.name, hp.name) for t in f.call_targets(c)):
+                n += 1
+                r, nm = chain(b.operand_term(c.args[1]))
+                R.ob("status/lookup-arg/%s#%d" % (name, n), r == ("param", "op") and nm == ["packet_id"],
+                     "%s looks up the handle's own identifier" % name, where=c.span)
+    R.floor("status/lookup-arg", n, 2, "queue lookups in the predicates")
 
 
 KIND_OF = {"subscribe": ["Subscribe"], "unsubscribe": ["Unsubscribe"], "publish": ["PublishAtLeastOnce", "PublishExactlyOnce"]}
